@@ -348,6 +348,15 @@ def value_table():
         ('exc0', ValueError(), ''), ('exc1', ValueError('m \xe9'), 'm \xe9'),
         ('exc1b', ValueError('m\xe9'.encode('utf-8')), 'm\xe9'),
         ('exc1int', ValueError(5), '5'),
+        # a single argument that is false but has a string form
+        ('exc1zero', ValueError(0), '0'), ('exc1none', KeyError(None), 'None'),
+        ('exc1false', ValueError(False), 'False'),
+        ('exc1fzero', ValueError(0.0), '0.0'),
+        ('exc1list', ValueError([]), '[]'), ('exc1tuple', ValueError(()), '()'),
+        ('exc1dict', MyExc({}), '{}'), ('exc1empty', ValueError(''), ''),
+        ('exc1bempty', ValueError(b''), ''),
+        ('excbase', KeyboardInterrupt('k'), 'k'),
+        ('excnested', ValueError(ValueError('in')), 'in'),
         ('exc2', ValueError('a', 'b'), str(('a', 'b'))),
         ('exc2b', ValueError(b'a', 2), str((b'a', 2))),
         ('userexc1', MyExc('u'), 'u'),
